@@ -15,6 +15,10 @@ the view. Environment guards of `step?` (what the property excludes): driver-lev
 on ports that carry no expression; a port that has NO expression gets its first one only while none of its own API
 writes / left-over evaluations is in flight. Everything else — enable, disable, re-assigning or clearing an
 expression — may happen at any point of any schedule. Boot states are arbitrary (values, registers, flags, expressions).
+Modelled order of `BasePort.enable()` / `disable()`: the flag is flipped and the forced evaluations are registered in
+one atomic stretch BEFORE the driver hook (`handle_enable` / `handle_disable`) is awaited — the actions `enable` /
+`disable`; the hook returning any number of passes later is the stuttering action `hookDone`. H1 includes "unavailable":
+a write of `none` sets the register to `none`.
 Driver READ FAULTS on ports without expression (read_value raising — including the 10 s retry suspension — or SkipRead)
 are the stuttering action `passSkip`, so `converges` holds for every schedule containing them; failing reads of a port
 that itself carries an expression are outside the model (C15).
